@@ -37,6 +37,19 @@ class Result:
         self.known[fid] = self.known.get(fid, 0) + n
 
 
+NSTREAMS = 24
+
+
+def streams(tier, seed, n=NSTREAMS):
+    """The randomly generated part of every universe is N fixed streams (section 2.4 of DESIGN.md): the
+    quick tier visits the stream VERIF_SEED selects, the thorough tier all of them - so whatever any
+    seed can reach, the thorough tier reaches, and it has been triaged on the pinned tree."""
+    import random
+
+    ids = [seed % n] if tier == "quick" else list(range(n))
+    return [random.Random(104729 * (i + 1)) for i in ids]
+
+
 def tla_set(names):
     return "{" + ", ".join('"%s"' % n for n in sorted(names)) + "}"
 
